@@ -3,7 +3,8 @@ from common import LEAN_TB
 CHECK = {
     "title": "A layer tarball faithfully and canonically serializes the built filesystem",
     "modules": ["Apko.Proofs.C06"],
-    "suites": [("tar", 1500, 24000)],
+    "suites": [("tar", 1500, 24000), ("tar-concurrent", 40, 600)],
+    "race_suites": ["tar-concurrent"],
     "budget_quick": 100,
     "thorough_seeds": 3,
     "fact_prefixes": ["tarball.go", "build_implementation.go", "tarfs/fs.go", "memfs.go"],
